@@ -59,6 +59,8 @@ def gen(rng, tier, mult=1):
         yield S.gen_source_freshness(rng)
     for i in range((60 if quick else 2000) * mult):
         yield S.gen_interleave(rng)
+    for i in range((4 if quick else 60) * mult):
+        yield S.gen_many_rows(rng)
     for i in range(n_fn):
         yield S.gen_fn(rng, i)
     for i in range(n_crash if quick else 0):
